@@ -4,7 +4,7 @@ From GeosV.Lib Require Import GeomDefs LocateDefs ValidDefs GenPreludeF Geom.
 From GeosV.C03 Require Import OverlayDefs OverlayGeom OverlayProofs.
 From GeosV.C04 Require Import GenPreludePM PrecDefs PrecRun.
 From GeosV.C04 Require GenPreludeHP.
-From GeosV.Gen Require PM_makePrecise HP_intersectsScaled.
+From GeosV.Gen Require PM_makePrecise HP_intersectsScaled HP_intersectsPt.
 Import ListNotations.
 Local Open Scope Z_scope.
 
@@ -177,4 +177,42 @@ Proof.
   replace (px - hx + hx) with px in * by ring. replace (py - hy + hy) with py in * by ring.
   replace (qx - hx + hx) with qx in * by ring. replace (qy - hy + hy) with qy in * by ring.
   rewrite T. rewrite S. exact W.
+Qed.
+
+
+(* ------------------------------------------------------------------ HotPixel::intersects(p): the pixel is half open *)
+(* generated unit (half units) = "p lies in [hx-1, hx+1) x [hy-1, hy+1)": closed on the left / bottom side, open on the right /
+   top side, so that a point exactly half a cell from two centres belongs to exactly one pixel *)
+Theorem gen_intersectsPt_halfopen : forall hx hy x y,
+  HP_intersectsPt.g_intersectsPt (GenPreludeHP.mkHP hx hy) (x, y) = true <-> (hx - 1 <= x < hx + 1 /\ hy - 1 <= y < hy + 1).
+Proof.
+  intros hx hy x y. unfold HP_intersectsPt.g_intersectsPt, HP_intersectsPt.g_TOLERANCE, GenPreludeHP.flit, GenPreludeHP.geb, GenPreludeHP.ltb,
+    GenPreludeHP.add, GenPreludeHP.sub, GenPreludeHP.m_scale_1, GenPreludeHP.f_x, GenPreludeHP.f_y.
+  cbn [GenPreludeHP.f_hpx GenPreludeHP.f_hpy fst snd]. change (2 * 1 / 2) with 1. cbv zeta.
+  rewrite !Z.geb_leb.
+  destruct (Z.leb_spec (hx + 1) x); [split; [discriminate|lia]|].
+  destruct (Z.ltb_spec x (hx - 1)); [split; [discriminate|lia]|].
+  destruct (Z.leb_spec (hy + 1) y); [split; [discriminate|lia]|].
+  destruct (Z.ltb_spec y (hy - 1)); [split; [discriminate|lia]|].
+  split; [lia|reflexivity].
+Qed.
+(* consequence: the pixels of a row / column tile the line — a point is in exactly one of two vertically (horizontally) adjacent pixels *)
+Theorem pixels_partition : forall hx hy x y,
+  HP_intersectsPt.g_intersectsPt (GenPreludeHP.mkHP hx hy) (x, y) = true ->
+  HP_intersectsPt.g_intersectsPt (GenPreludeHP.mkHP hx (hy + 2)) (x, y) = false
+  /\ HP_intersectsPt.g_intersectsPt (GenPreludeHP.mkHP hx (hy - 2)) (x, y) = false
+  /\ HP_intersectsPt.g_intersectsPt (GenPreludeHP.mkHP (hx + 2) hy) (x, y) = false
+  /\ HP_intersectsPt.g_intersectsPt (GenPreludeHP.mkHP (hx - 2) hy) (x, y) = false.
+Proof.
+  intros hx hy x y H. apply gen_intersectsPt_halfopen in H.
+  repeat split; match goal with |- ?f = false => destruct f eqn:E; [apply gen_intersectsPt_halfopen in E; lia|reflexivity] end.
+Qed.
+(* and it agrees with the segment test on a degenerate segment *)
+Theorem intersectsPt_is_degenerate_segment : forall hx hy x y,
+  HP_intersectsPt.g_intersectsPt (GenPreludeHP.mkHP hx hy) (x, y) = true <-> seg_meets_pixel hx hy x y x y.
+Proof.
+  intros hx hy x y. rewrite gen_intersectsPt_halfopen. unfold seg_meets_pixel. split.
+  - intro H. exists 0, 1. lia.
+  - intros (n & m & Hm & Hn & Hx & Hy).
+    replace ((m - n) * x + n * x) with (m * x) in Hx by ring. replace ((m - n) * y + n * y) with (m * y) in Hy by ring. nia.
 Qed.
